@@ -4,7 +4,7 @@
 (* A case has N identifier slots; slot k holds an identifier "ID<k>" of a class    *)
 (*   cur | dep | exc | ref | unk      (the concretiser substitutes a real one)     *)
 (* used in one way                                                                 *)
-(*   none | alone | plus | and | or | with | paren | twotags | dotlicense | toml | dep5 *)
+(*   none | alone | plus | and | or | with | paren | twotags | absorb | dotlicense | toml | dep5 *)
 (* and provided in LICENSES/ in one way                                            *)
 (*   absent | txt | md | noext | subdir | plusname | withdotlicense                *)
 (* Around it a compliant skeleton: file base.py (MIT, provided).                   *)
@@ -62,12 +62,14 @@ UseExprs(k) ==
                                     tree |-> [op |-> "AND", l |-> Leaf("MIT", "MIT"),
                                               r |-> [op |-> "OR", l |-> Leaf(id, id), r |-> Leaf("0BSD", "0BSD")]]]>>
          [] s.use = "twotags" -> <<MITL, L(id)>>
+         \* the conjunction of the two tags is logically MIT alone: the identifier is used all the same
+         [] s.use = "absorb"  -> <<MITL, [text |-> "MIT OR " \o id, tree |-> [op |-> "OR", l |-> Leaf("MIT", "MIT"), r |-> Leaf(id, id)]]>>
          [] OTHER -> <<>>
 UserName(k)  == "u" \o ToString(k) \o ".py"
 UserChars(k) == <<"u", ToString(k), ".", "p", "y">>
 UserFile(k) ==
    LET s == slots[k]
-       viaHeader == s.use \in {"alone", "plus", "and", "or", "with", "paren", "twotags"}
+       viaHeader == s.use \in {"alone", "plus", "and", "or", "with", "paren", "twotags", "absorb"}
        f == BaseFile(UserName(k), UserChars(k), IF viaHeader THEN UseExprs(k) ELSE <<>>)
    IN  CASE s.use = "dotlicense" ->
               [f EXCEPT !.dot = [present |-> TRUE, cop |-> <<"SPDX-FileCopyrightText: 2021 Dot One">>,
